@@ -394,7 +394,6 @@ Proof. reflexivity. Qed.
 (** the common end of renewTail + moveTail: the chain header x becomes the tail *)
 Inductive target_res (t h x n : N) : outcome * store * why -> Prop :=
 | TRDone st' : wf st' n -> s_tail st' = x -> (h <= s_head st') -> x <= h + 1 -> target_res t h x n (OOk, st', WDone)
-| TRChunk st' : wf st' n -> s_tail st' = x -> s_head st' = h -> x < t -> h = t -> target_res t h x n (OErr, st', WChunk)
 | TRDelete : h + 1 < x -> target_res t h x n (OErr, Store t h [x], WDelete).
 
 Lemma retarget_spec t h x n :
@@ -435,9 +434,7 @@ Proof.
         unfold move_tail. destruct (N.ltb_spec t x); [lia|]. destruct (N.ltb_spec x t); [|lia].
         cbn [s_head]. unfold st_sync_down. cbn [s_tail].
         destruct (N.ltb_spec x (t - 1)); [lia|].
-        destruct ((h =? t) && ((t - x - 1) mod max_range =? 0)) eqn:K.
-        -- apply TRChunk; cbn; try lia. split; cbn; [reflexivity|right; lia].
-        -- apply TRDone; cbn; try lia. split; cbn; [reflexivity|right; lia].
+        apply TRDone; cbn; try lia. split; cbn; [reflexivity|right; lia].
       * destruct (N.ltb_spec x t).
         -- (* further below the tail *)
            unfold move_tail. destruct (N.ltb_spec t x); [lia|]. destruct (N.ltb_spec x t); [|lia].
@@ -452,9 +449,7 @@ Proof.
              - rewrite Bool.andb_false_r. cbn.
                destruct (N.ltb_spec x x); [lia|]. cbn. destruct (N.ltb_spec h x); [lia|]. reflexivity. }
            rewrite E.
-           destruct ((h =? t) && ((t - x - 1) mod max_range =? 0)) eqn:K.
-           ++ apply TRChunk; cbn; try lia. split; cbn; [reflexivity|right; lia].
-           ++ apply TRDone; cbn; try lia. split; cbn; [reflexivity|right; lia].
+           apply TRDone; cbn; try lia. split; cbn; [reflexivity|right; lia].
         -- (* above head + 1: DeleteRange refuses *)
            assert (h + 1 < x) by lia.
            unfold move_tail. destruct (N.ltb_spec t x); [|lia].
@@ -474,8 +469,6 @@ Inductive sub_res (st : store) (n : N) : obs * why -> Prop :=
 | SRStay req w : (w = WScan \/ w = WZero \/ w = WFetch) -> sub_res st n (Obs OErr req st, w)
 | SRDone req st' : wf st' n -> s_tail st' <> 0 -> s_head st <= s_head st' ->
     Forall (fun h => 1 <= h <= n) req -> sub_res st n (Obs OOk req st', WDone)
-| SRChunk req st' : wf st' n -> s_tail st' <> 0 -> s_tail st' < s_tail st -> s_head st' = s_head st ->
-    Forall (fun h => 1 <= h <= n) req -> sub_res st n (Obs OErr req st', WChunk)
 | SRDelete req x : s_tail st <> 0 -> s_head st + 1 < x <= n ->
     Forall (fun h => 1 <= h <= n) req ->
     sub_res st n (Obs OErr req (Store (s_tail st) (s_head st) [x]), WDelete).
@@ -504,9 +497,8 @@ Proof.
     pose proof (retarget_spec (s_tail st) (s_head st) x n Ht Hh Hx H64) as R.
     rewrite <- Hst in R.
     set (r := move_tail (st_append st x) (Some (s_tail st)) x) in *. clearbody r.
-    destruct R as [st' W1 W2 W3 W3'|st' W1 W2 W3 W4 W5|W1]; cbn [moved].
+    destruct R as [st' W1 W2 W3 W3'|W1]; cbn [moved].
     + apply SRDone; auto. lia.
-    + apply SRChunk; auto; lia.
     + apply SRDelete; auto; lia.
 Qed.
 
@@ -630,14 +622,13 @@ Proof.
     { unfold start_call in SC. destruct (params_valid p); [reflexivity|discriminate]. }
     pose proof (subjective_tail_spec p times st1 Hwf1 H64 Hv) as R. fold n in R.
     set (r := subjective_tail p times st1) in *. clearbody r.
-    destruct R as [|req w' Hw'|req st' W1 W2 W3 W4|req st' W1 W2 W3 W4 W5|req x W1 W2 W3];
+    destruct R as [|req w' Hw'|req st' W1 W2 W3 W4|req x W1 W2 W3];
       cbn [o_out o_req o_store].
     + split; [intros _; split; [auto|lia]|discriminate].
     + split; [intros _; split; [auto|lia]|intros ->; destruct Hw' as [|[|]]; discriminate].
     + split; [|discriminate]. intros _. destruct init.
       * destruct (wf_adopt times st' W1 W2) as [A1 A2]. split; [exact A1|]. rewrite A2. auto.
       * destruct (wf_sync_up st' n n W1 W2 ltac:(lia)) as [A1 A2]. fold n. split; [exact A1|]. rewrite A2. auto.
-    + split; [intros _; split; auto|discriminate].
     + split; [intros C; contradiction|]. intros _. split; [reflexivity|].
       exists (s_tail st1), (s_head st1), x. split; [reflexivity|].
       assert (E : st_empty st1 = false) by (unfold st_empty; lia).
@@ -650,7 +641,7 @@ Lemma move_tail_out st old x : let '(o, _, _) := move_tail st old x in o = OOk \
 Proof.
   unfold move_tail. destruct old as [t|]; [|auto].
   destruct (t <? x); [destruct (st_delete_range st t x); auto|].
-  destruct (x <? t); [|auto]. destruct (_ && _); auto.
+  destruct (x <? t); auto.
 Qed.
 
 Lemma fetch_tail_out times st old x req :
@@ -732,7 +723,7 @@ Proof.
     pose proof (retarget_spec (s_tail st) (s_head st) x n Ht Hh Hx H64) as R.
     rewrite <- Hst in R.
     set (r := move_tail (st_append st x) (Some (s_tail st)) x) in *. clearbody r.
-    destruct R as [st' W1 W2 W3 W3'|st' W1 W2 W3 W4 W5|W1]; cbn; auto; discriminate.
+    destruct R as [st' W1 W2 W3 W3'|W1]; cbn; auto; discriminate.
 Qed.
 
 Lemma subjective_tail_window_tail p times st x :
@@ -778,8 +769,7 @@ Qed.
 Lemma target_step_full st n x req :
   wf st n -> 1 <= x <= n -> n + 2 < two64 ->
   let r := moved req (move_tail (st_append st x) (if st_empty st then None else Some (s_tail st)) x) in
-  (snd r = WDone \/ snd r = WChunk \/ snd r = WDelete) /\
-  (snd r = WChunk -> x < s_tail st) /\ (snd r = WDelete -> s_head st + 1 < x) /\
+  (snd r = WDone \/ snd r = WDelete) /\ (snd r = WDelete -> s_head st + 1 < x) /\
   o_req (fst r) = req /\ (snd r = WDone -> s_tail st <> 0 -> x <= s_head st + 1).
 Proof.
   intros Hwf Hx H64. destruct (st_empty st) eqn:E.
@@ -789,7 +779,7 @@ Proof.
     pose proof (retarget_spec (s_tail st) (s_head st) x n Ht Hh Hx H64) as R.
     rewrite <- Hst in R.
     set (r := move_tail (st_append st x) (Some (s_tail st)) x) in *. clearbody r.
-    destruct R as [st' W1 W2 W3 W3'|st' W1 W2 W3 W4 W5|W1]; cbn; repeat split; auto; try discriminate; lia.
+    destruct R as [st' W1 W2 W3 W3'|W1]; cbn; repeat split; auto; try discriminate; lia.
 Qed.
 
 (** what subjectiveTail does once the tail height x is known to be a height of the chain *)
@@ -797,8 +787,7 @@ Lemma subjective_tail_window_x p times st x :
   wf st (net_head times) -> net_head times + 2 < two64 ->
   p_hash p = HNone -> tail_calc p times st = TVal x -> 1 <= x <= net_head times ->
   let r := subjective_tail p times st in
-  (snd r = WDone \/ snd r = WChunk \/ snd r = WDelete) /\
-  (snd r = WChunk -> x < s_tail st) /\ (snd r = WDelete -> s_head st + 1 < x) /\
+  (snd r = WDone \/ snd r = WDelete) /\ (snd r = WDelete -> s_head st + 1 < x) /\
   Forall (fun h => 1 <= h <= net_head times) (o_req (fst r)) /\
   (snd r = WDone -> s_tail st <> 0 -> x <= s_head st + 1).
 Proof.
@@ -809,11 +798,11 @@ Proof.
     replace (move_tail st (if st_empty st then None else Some (s_tail st)) x)
       with (move_tail (st_append st x) (if st_empty st then None else Some (s_tail st)) x)
       by (rewrite st_append_has; auto).
-    destruct (target_step_full st (net_head times) x [] Hwf Hx H64) as (A & B & C & D & F).
+    destruct (target_step_full st (net_head times) x [] Hwf Hx H64) as (A & C & D & F).
     repeat split; auto. rewrite D. constructor.
   - unfold fetch_tail. assert (Ic : in_chain times x = true) by (apply in_chain_spec; lia).
     rewrite Ic.
-    destruct (target_step_full st (net_head times) x [x] Hwf Hx H64) as (A & B & C & D & F).
+    destruct (target_step_full st (net_head times) x [x] Hwf Hx H64) as (A & C & D & F).
     repeat split; auto. rewrite D. constructor; [lia|constructor].
 Qed.
 
@@ -867,18 +856,16 @@ Proof.
       split; intros HH; try discriminate; auto; destruct HH; discriminate. }
   destruct (start_call_wf p times now st init st1 Hwf H64 SC) as (Hwf1 & Ht1 & Hst1). fold n in Hwf1.
   destruct (tail_calc_window p times st1 Hwf1 H64 Hn Hf) as (x & TC & Hx & Hge).
-  destruct (subjective_tail_window_x p times st1 x Hwf1 H64 Hh TC Hx) as (A & B & C & D & F).
+  destruct (subjective_tail_window_x p times st1 x Hwf1 H64 Hh TC Hx) as (A & C & D & F).
   assert (Hv : params_valid p = true).
   { unfold start_call in SC. destruct (params_valid p); [reflexivity|discriminate]. }
   pose proof (subjective_tail_spec p times st1 Hwf1 H64 Hv) as R. fold n in R.
   set (r := subjective_tail p times st1) in *. clearbody r.
-  destruct R as [|req w' Hw'|req st' W1 W2 W3 W4|req st' W1 W2 W3 W4 W5|req x' W1 W2 W3];
+  destruct R as [|req w' Hw'|req st' W1 W2 W3 W4|req x' W1 W2 W3];
     cbn [fst snd o_out o_req o_store] in *.
-  - destruct A as [A|[A|A]]; discriminate.
-  - destruct Hw' as [Hw1|[Hw1|Hw1]]; subst w'; destruct A as [A|[A|A]]; discriminate.
+  - destruct A as [A|A]; discriminate.
+  - destruct Hw' as [Hw1|[Hw1|Hw1]]; subst w'; destruct A as [A|A]; discriminate.
   - split; [auto|]. split; [exact D|]. split; auto.
-  - exfalso. specialize (B eq_refl). destruct (N.eq_dec (s_tail st1) 0) as [E0|E0]; [lia|].
-    specialize (Hge E0). lia.
   - split; [auto 6|]. split; [exact D|]. split; [discriminate|intros [|]; discriminate].
 Qed.
 
@@ -892,7 +879,7 @@ Proof.
   destruct (N.eqb_spec x 0); [lia|]. rewrite Bool.andb_false_r.
   destruct ((x <=? st_height st) && st_has st x) eqn:C1; [lia|].
   unfold fetch_tail. assert (Ic : in_chain times x = true) by (apply in_chain_spec; lia). rewrite Ic.
-  destruct (target_step_full st (net_head times) x [x] Hwf Hx H64) as (_ & _ & _ & D & _).
+  destruct (target_step_full st (net_head times) x [x] Hwf Hx H64) as (_ & _ & D & _).
   rewrite D. discriminate.
 Qed.
 
@@ -916,13 +903,13 @@ Proof.
   assert (Hin1 : st_has st1 h = true) by (apply (st_has_wf st1 n h Hwf1); lia).
   assert (E1 : st_empty st1 = false) by (unfold st_empty; lia).
   destruct (tail_calc_window p times st1 Hwf1 H64 Hn Hf) as (x & TC & Hx & Hge).
-  destruct (subjective_tail_window_x p times st1 x Hwf1 H64 Hh TC Hx) as (_ & _ & _ & _ & BD).
+  destruct (subjective_tail_window_x p times st1 x Hwf1 H64 Hh TC Hx) as (_ & _ & _ & BD).
   pose proof (subjective_tail_spec p times st1 Hwf1 H64 Hv) as R. fold n in R.
   pose proof (subjective_tail_window_tail p times st1 x Hwf1 H64 Hh TC) as WT.
   set (r := subjective_tail p times st1) in *. clearbody r.
   exists init, st1, x. split; [reflexivity|]. split; [exact Hwf1|]. split; [exact Ht1|]. split; [exact Hne|].
   split; [exact Hhd|]. split; [exact TC|].
-  destruct R as [|req w' Hw'|req st' W1 W2 W3 W4|req st' W1 W2 W3 W4 W5|req x' W1 W2 W3];
+  destruct R as [|req w' Hw'|req st' W1 W2 W3 W4|req x' W1 W2 W3];
     cbn [fst snd o_out o_req o_store] in *.
   - congruence.
   - congruence.
@@ -941,8 +928,6 @@ Proof.
       assert (st_has st2 h = true); [|congruence].
       apply (st_has_wf st2 n h F1). lia. }
     split; [lia|]. split; [lia|exact BD].
-  - exfalso. assert (st_has st' h = true); [|congruence].
-    apply (st_has_wf st' n h W1). lia.
   - exfalso. unfold st_has in Hout. cbn in Hout. unfold st_empty in Hout. cbn in Hout. lia.
 Qed.
 
@@ -1006,7 +991,7 @@ Proof.
   assert (E1 : st_empty st1 = false) by (unfold st_empty; lia).
   destruct (wf_nonempty st1 n Hwf1 E1) as (_ & Htr & Hhr).
   destruct (tail_calc_window p times st1 Hwf1 H64 Hn Hf) as (x & TC & Hx & Hge).
-  destruct (subjective_tail_window_x p times st1 x Hwf1 H64 Hh TC Hx) as (A & B & C & D & F).
+  destruct (subjective_tail_window_x p times st1 x Hwf1 H64 Hh TC Hx) as (A & C & D & F).
   assert (Hxs : x <= s_head st1).
   { pose proof TC as TC'. unfold tail_calc in TC'. rewrite E1 in TC'. fold n in TC'.
     destruct (tm_some times (s_tail st1) ltac:(fold n; lia)) as [v Hv1]. rewrite Hv1 in TC'.
@@ -1143,12 +1128,13 @@ Proof.
 Qed.
 
 (** F9d: headers at 0, 10, 150ns; window 100ns, blockTime 1ns *)
-(** F9f: the store is the single header 62, SyncFromHash names header 61 *)
+(** the former finding F9f (80904e6): the store is the single header 62,
+    SyncFromHash names header 61; the last re-fetched chunk [62] is accepted again *)
 Definition w9f_params : params := Params (337 * w_hour)%Z 0 (HAt 61) w_big w_sec 1.
-Lemma w9f_chunk :
+Lemma w9f_fixed :
   params_valid w9f_params = true /\
   start_run w9f_params (mk_times 0%Z (repeat w_sec 69)) (69 * w_sec + 1)%Z (Store 62 62 []) =
-    (Obs OErr [] (Store 61 62 []), WChunk).
+    (Obs OOk [] (Store 61 70 []), WDone).
 Proof. vm_compute. auto. Qed.
 
 (** * Facts used by the oracle lemma (Oracle/C16.v) *)
@@ -1194,15 +1180,15 @@ Proof.
     apply tm_some. lia.
 Qed.
 
-Lemma move_tail_why st old x : let '(_, _, w) := move_tail st old x in w = WDone \/ w = WChunk \/ w = WDelete.
+Lemma move_tail_why st old x : let '(_, _, w) := move_tail st old x in w = WDone \/ w = WDelete.
 Proof.
   unfold move_tail. destruct old as [t|]; [|auto].
   destruct (t <? x); [destruct (st_delete_range st t x); auto|].
-  destruct (x <? t); [|auto]. destruct (_ && _); auto.
+  destruct (x <? t); auto.
 Qed.
 
-Lemma moved_why req r : (let '(_, _, w) := r in w = WDone \/ w = WChunk \/ w = WDelete) ->
-  snd (moved req r) = WDone \/ snd (moved req r) = WChunk \/ snd (moved req r) = WDelete.
+Lemma moved_why req r : (let '(_, _, w) := r in w = WDone \/ w = WDelete) ->
+  snd (moved req r) = WDone \/ snd (moved req r) = WDelete.
 Proof. destruct r as [[o s] w]. cbn. auto. Qed.
 
 (** the reasons subjectiveTail can give, and what they say about the parameters *)
@@ -1233,10 +1219,10 @@ Proof.
         destruct (N.eq_dec (p_from p) 0); auto. specialize (TF ltac:(lia)). inversion TF. lia.
       * destruct ((x <=? st_height st) && st_has st x).
         -- pose proof (moved_why [] _ (move_tail_why st (if st_empty st then None else Some (s_tail st)) x)) as M.
-           cbn zeta. unfold not. repeat split; intros; exfalso; match goal with C : snd _ = _ |- _ => rewrite C in M; destruct M as [M|[M|M]]; discriminate end.
+           cbn zeta. unfold not. repeat split; intros; exfalso; match goal with C : snd _ = _ |- _ => rewrite C in M; destruct M as [M|M]; discriminate end.
         -- unfold fetch_tail. destruct (in_chain times x) eqn:Ic.
            ++ pose proof (moved_why [x] _ (move_tail_why (st_append st x) (if st_empty st then None else Some (s_tail st)) x)) as M.
-              cbn zeta. unfold not. repeat split; intros; exfalso; match goal with C : snd _ = _ |- _ => rewrite C in M; destruct M as [M|[M|M]]; discriminate end.
+              cbn zeta. unfold not. repeat split; intros; exfalso; match goal with C : snd _ = _ |- _ => rewrite C in M; destruct M as [M|M]; discriminate end.
            ++ cbn. repeat split; try discriminate. intros _. right.
               destruct (N.eq_dec (p_from p) 0); [right; auto|left].
               specialize (TF ltac:(lia)). inversion TF. subst x. repeat split; auto. lia.
@@ -1245,10 +1231,10 @@ Proof.
     + cbn. repeat split; discriminate.
     + destruct (in_chain times k && st_has st k) eqn:C1.
       * pose proof (moved_why [] _ (move_tail_why st (if st_empty st then None else Some (s_tail st)) k)) as M.
-        cbn zeta. unfold not. repeat split; intros; exfalso; match goal with C : snd _ = _ |- _ => rewrite C in M; destruct M as [M|[M|M]]; discriminate end.
+        cbn zeta. unfold not. repeat split; intros; exfalso; match goal with C : snd _ = _ |- _ => rewrite C in M; destruct M as [M|M]; discriminate end.
       * unfold fetch_tail. destruct (in_chain times k) eqn:Ic.
         -- pose proof (moved_why [] _ (move_tail_why (st_append st k) (if st_empty st then None else Some (s_tail st)) k)) as M.
-           cbn zeta. unfold not. repeat split; intros; exfalso; match goal with C : snd _ = _ |- _ => rewrite C in M; destruct M as [M|[M|M]]; discriminate end.
+           cbn zeta. unfold not. repeat split; intros; exfalso; match goal with C : snd _ = _ |- _ => rewrite C in M; destruct M as [M|M]; discriminate end.
         -- cbn. repeat split; try discriminate. intros _. left. exists k. auto.
 Qed.
 
@@ -1269,11 +1255,9 @@ Proof.
     apply (st_has_wf st1 _ h Hwf1). destruct Hst1 as [->|(A & B & C)]; [auto|]. lia. }
   pose proof (subjective_tail_spec p times st1 Hwf1 H64 Hv) as R.
   set (r := subjective_tail p times st1) in *. clearbody r.
-  destruct R as [|req w' Hw'|req st' W1 W2 W3 W4|req st' W1 W2 W3 W4 W5|req x' W1 W2 W3];
+  destruct R as [|req w' Hw'|req st' W1 W2 W3 W4|req x' W1 W2 W3];
     cbn [fst snd o_out o_req o_store]; intros Hnd h Hin; try (apply Hsub; exact Hin).
   - contradiction.
-  - specialize (Hsub h Hin). pose proof (proj1 (st_has_wf st1 _ h Hwf1) Hsub).
-    apply (st_has_wf st' _ h W1). lia.
   - specialize (Hsub h Hin). pose proof (proj1 (st_has_wf st1 _ h Hwf1) Hsub).
     unfold st_has, st_empty. cbn. lia.
 Qed.
@@ -1299,7 +1283,7 @@ Lemma start_run_facts p times now st :
               (p_hash p = HNone /\ 0 < p_from p /\ in_chain times (p_from p) = false) \/
               (p_hash p = HNone /\ p_from p = 0)) /\
              exists init st1, start_call p times now st = inr (init, st1)
-  | WDelete | WChunk => params_valid p = true /\ o_out m = OErr
+  | WDelete => params_valid p = true /\ o_out m = OErr
   end.
 Proof.
   intros Hwf H64. unfold start_run.
@@ -1321,7 +1305,7 @@ Proof.
     pose proof (subjective_tail_spec p times st1 Hwf1 H64 Hv) as R.
     pose proof (subjective_tail_why p times st1 Hwf1 Hv) as (Y1 & Y2 & Y3 & Y4 & Y5 & Y6 & Y7).
     set (r := subjective_tail p times st1) in *. clearbody r.
-    destruct R as [|req w' Hw'|req st' W1 W2 W3 W4|req st' W1 W2 W3 W4 W5|req x' W1 W2 W3];
+    destruct R as [|req w' Hw'|req st' W1 W2 W3 W4|req x' W1 W2 W3];
       cbn [fst snd o_out o_req o_store] in *.
     + reflexivity.
     + destruct Hw' as [Hw1|[Hw1|Hw1]]; subst w'.
@@ -1331,7 +1315,6 @@ Proof.
     + repeat split; auto. destruct init.
       * destruct (wf_adopt times st' W1 W2) as [_ A2]. rewrite A2. exact W2.
       * destruct (wf_sync_up st' _ (net_head times) W1 W2 ltac:(lia)) as [_ A2]. rewrite A2. exact W2.
-    + split; auto.
     + split; auto.
 Qed.
 
@@ -1356,15 +1339,6 @@ Proof.
   destruct w9w_first as (A & B & _ & _). split; [exact A|].
   split; [split; [reflexivity|right; vm_compute; repeat split; discriminate]|].
   split; [exact B|exact w9w_forever].
-Qed.
-
-Lemma move_down_refuted : exists p times now st,
-  params_valid p = true /\ wf st (net_head times) /\
-  start_run p times now st = (Obs OErr [] (Store 61 62 []), WChunk).
-Proof.
-  exists w9f_params, (mk_times 0%Z (repeat w_sec 69)), (69 * w_sec + 1)%Z, (Store 62 62 []).
-  destruct w9f_chunk as [A B]. split; [exact A|].
-  split; [split; [reflexivity|right; vm_compute; repeat split; discriminate]|exact B].
 Qed.
 
 (** non-vacuity of the positive step-level theorems: runs that meet their
